@@ -49,7 +49,12 @@ def doOp (s : SillMap) (fvs : Array (Option FVal)) (op : String) : Array (Option
   | 'D' =>
     match body.toNat? with
     | some k => (match getSlot fvs k with
-        | some fv => (fvs, String.intercalate "," (s.fm.feats.map (fun r => toString (r.get fv % 65536))))
+        -- like the harness: every feature of the table, in table order, looked up by its id through `gr_face_find_fref`
+        -- (which zero-pads the id it is given, so an id ending in a space byte is not found and prints 0)
+        | some fv => (fvs, String.intercalate "," (s.fm.feats.map (fun r =>
+            match findFref s r.id with
+            | some r' => toString (r'.get fv % 65536)
+            | none => "0")))
         | none => (fvs, "nofv"))
     | none => (fvs, "bad")
   | 'N' =>
